@@ -10,7 +10,7 @@ RULE = ("Hypothesis-generated histories (<=12 ops) over two sources and one targ
         "nested_refs), d (Dict, nested_refs): references of every kind (Parameter, bind of one or two parameters, depends "
         "function, dependent method depending on another dependent method, rx expression, nested list/dict, a bound function that skips - raises Skip - for some source values) given in the constructor or assigned later; source updates (valid and "
         "occasionally invalid for the target), source batches, relinks, overrides with plain values, `with target.param.update()` "
-        "contexts over one or two names given as keywords, a mapping or both, with source updates inside, param.trigger on linked and unlinked names; oracle = closure model of each live link evaluated on model source values, compared "
+        "contexts over one or two names given as keywords, a mapping or both, with source updates inside, param.trigger on linked and unlinked names, linked parameters made constant on the instance; rx references that raise for some source values; oracle = closure model of each live link evaluated on model source values, compared "
         "after every op, overridden names keep their plain value for good, and a census of the internal watchers the target "
         "keeps on each source (none when no live link depends on that source). Non-trivial = >=2 linked parameters and a "
         "relink/override of one of them followed by updates of the old and new sources; or a link made after construction; or a "
@@ -30,7 +30,7 @@ _tn = st.sampled_from(TN)
 def _link(draw):
     n = draw(_tn)
     if n in ("x", "y") and draw(st.integers(0, 4)) == 0:
-        return [n, draw(rw.skip_ref)]
+        return [n, draw(st.one_of(rw.skip_ref, rw.div_ref))]
     return [n, draw(rw.ref_for(n))]
 
 
@@ -39,10 +39,13 @@ def _op(draw, depth=0):
     kind = draw(st.sampled_from(["src", "src", "src", "src", "batch", "relink", "relink", "override", "updctx", "trigger"] if depth == 0
                                 else ["src", "src", "batch", "trigger"]))
     if kind == "trigger":
+        if depth == 0 and draw(st.integers(0, 3)) == 0:
+            # the linked parameter is made constant on this instance only: its link goes on feeding it
+            return ["inst_const", draw(st.sampled_from(["x", "y", "t"]))]
         return ["trigger", draw(st.lists(_tn, min_size=1, max_size=2, unique=True)), draw(st.booleans())]
     if kind == "src":
         pn = draw(st.sampled_from(["v", "w", "s"]))
-        val = draw(st.integers(-20, 60)) if pn != "s" else draw(st.sampled_from(["a", "b", "cc"]))
+        val = draw(st.one_of(st.integers(-20, 60), st.integers(-20, 60), st.just(0))) if pn != "s" else draw(st.sampled_from(["a", "b", "cc"]))
         if pn != "s" and draw(st.integers(0, 5)) == 0:
             val = 5000            # invalid for the Number targets (bounds +-1000)
         return ["src", draw(st.integers(0, 1)), pn, val]
@@ -65,7 +68,16 @@ def _op(draw, depth=0):
 @st.composite
 def _case(draw):
     ctor = draw(st.lists(_link(), max_size=3, unique_by=lambda l: l[0]))
-    return {"ctor": ctor, "ops": draw(st.lists(_op(), min_size=1, max_size=12))}
+    ops = draw(st.lists(_op(), min_size=1, max_size=12))
+    if draw(st.integers(0, 5)) == 0:
+        # a link whose evaluation fails for a while because of an operand (not the root) of its expression, then recovers
+        n = draw(st.sampled_from(["x", "y"]))
+        si, sj = draw(st.integers(0, 1)), draw(st.integers(0, 1))
+        pi, pj = draw(st.sampled_from([("v", "w"), ("w", "v")]))
+        ctor = [l for l in ctor if l[0] != n] + [[n, ["rxdiv", si, pi, sj, pj]]]
+        at = draw(st.integers(0, len(ops)))
+        ops[at:at] = [["src", sj, pj, 0], ["src", sj, pj, draw(st.integers(1, 9))], ["src", si, pi, draw(st.integers(10, 60))]]
+    return {"ctor": ctor, "ops": ops}
 
 
 def strategy(tier):
@@ -77,6 +89,8 @@ def _plain(n, k):
 
 
 def _valid(n, v):
+    if v is rw.ERR:
+        return False          # the reference cannot be evaluated right now: like an invalid value, the source update raises
     if v is rw.SKIP:
         return True           # a skipped evaluation assigns nothing, so it cannot be invalid
     if n in ("x", "y"):
@@ -137,7 +151,7 @@ def execute(case):
         unchanged = mv[(i, pn)] == val
         try:
             setattr(srcs[i], pn, val)
-        except ValueError:
+        except (ValueError, ZeroDivisionError):
             if not invalid_for:
                 res.fail("C08.source_update_raised", f"{tag}: updating the source raised although every linked value stays valid")
         mv[(i, pn)] = getattr(srcs[i], pn)
@@ -152,9 +166,13 @@ def execute(case):
         if hist["relinked"]:
             hist["after_relink_src_updates"] += 1
 
+    iconst = set()        # names made constant on the instance: assignments by the user are refused from then on
+
     def run(op, depth=0):
         k = op[0]
         tag = f"{op!r}"
+        if k in ("relink", "override") and op[1] in iconst or k == "updctx" and (op[1] in iconst or (len(op) > 4 and op[4] in iconst)):
+            return None       # (that such assignments raise TypeError is C14's subject)
         res.label("op:" + k)
         if k == "src":
             src_set(op[1], op[2], op[3], tag)
@@ -165,7 +183,7 @@ def execute(case):
             old_vals = {"v": mv[(i, "v")], "w": mv[(i, "w")]}
             try:
                 srcs[i].param.update(v=op[2], w=op[3])
-            except ValueError:
+            except (ValueError, ZeroDivisionError):
                 pass
             mv[(i, "v")], mv[(i, "w")] = srcs[i].v, srcs[i].w
             changed = {p for p, v in (("v", op[2]), ("w", op[3])) if old_vals[p] != v}
@@ -181,7 +199,7 @@ def execute(case):
             want = fn(mv)
             try:
                 setattr(tgt, n, ref)
-            except ValueError:
+            except (ValueError, ZeroDivisionError):
                 if _valid(n, want):
                     res.fail("C08.relink_raised", f"{tag}: assigning a reference with the valid current value {want!r} raised")
                 res.dontcare += 1
@@ -195,6 +213,12 @@ def execute(case):
             marks.add("link_made_later")
             if spec[0] in ("nlist", "ndict"):
                 marks.add("nested_reference")
+        elif k == "inst_const":
+            n = op[1]
+            tgt.param[n].constant = True
+            iconst.add(n)
+            if n in links:
+                marks.add("linked_parameter_made_constant_on_the_instance")
         elif k == "trigger":
             # param.trigger announces the current values again: it overrides nothing, links stay as they are
             if any(n in stale for n in op[1]):
@@ -248,7 +272,7 @@ def execute(case):
                 plain.pop(n, None)
             try:
                 cm.__exit__(None, None, None)
-            except ValueError:
+            except (ValueError, ZeroDivisionError):
                 # a link cannot be restored because its reference currently resolves to an invalid value: no claim
                 if any(wl is not None and not _valid(n, wl[0](mv)) for n, (wl, _p, _b) in saved.items()):
                     res.dontcare += 1
